@@ -13,6 +13,11 @@
 (* Part 4  index classes, and the design-level statement: for which classes   *)
 (*         the transcription equals the definition                            *)
 (* Part 5  enumeration scope, Init/Next, emission for replay                  *)
+(* Part 6  long rows / many rows: a catalogue of shapes whose axes are longer  *)
+(*         than a narrow integer type can count, index expressions around the  *)
+(*         ends of the axes and the limits of int8 / uint8 / int16, and the    *)
+(*         dtype-aware transcription of _convert_from_2d that tells for which  *)
+(*         (case, index dtype) the arithmetic of the code leaves the range     *)
 EXTENDS Ragged, FiniteSets, TLC, Json
 
 SX == INSTANCE SequencesExt   \* (EXTENDS would clash with PySlice!Range)
@@ -25,10 +30,16 @@ CONSTANTS MaxRows, MaxLen,  \* shapes: 1..MaxRows rows of length 1..MaxLen
           ShardN, ShardK,   \* this run handles the shapes whose ordinal mod ShardN = ShardK
           SampleN, SampleK, \* full products (not Pairwise) keep the pairs whose mix mod SampleN = SampleK
           Emit,             \* TRUE: batch emission of cases for replay
-          Patched           \* FALSE: Part 3 is the pinned tree; TRUE: Part 3 with the repairs proposed for
+          Patched,          \* FALSE: Part 3 is the pinned tree; TRUE: Part 3 with the repairs proposed for
                             \* ra.py (slice.indices per axis / per row, integer-typed empty index arrays,
                             \* constructor accepts empty data and keeps trailing element dimensions,
                             \* ra[i, j] returns the element)
+          IndexCast,        \* TRUE: _convert_from_2d casts its index arrays to intp before any arithmetic
+                            \* (proposed repair); FALSE: the arithmetic runs in the caller's index dtype
+          LongSel,          \* Part 6: the shapes of LongCatalogue (by position) this run handles ({} = none)
+          LongKinds,        \*         the index kinds this run handles
+          LongMaxSel,       \*         slices of the long family select at most this many positions per axis ...
+          LongMaxTot        \*         ... except a few representatives; no emitted result holds more elements
 
 VARIABLES lens,   \* the shape: sequence of row lengths
           ix,     \* the index expression
@@ -40,9 +51,13 @@ Hi == Bound
 
 vars == <<lens, ix, edim, pc, first, fi, si, nl, nlnd, flat, vals, out>>
 
-(* every cell holds a distinct value, so data from a wrong place is visible   *)
-Cell(r, c) == 10 * r + c
-RowsOf(ls) == [k \in 1..Len(ls) |-> [j \in 1..ls[k] |-> Cell(k - 1, j - 1)]]
+(* every cell holds a distinct value, so data from a wrong place is visible:   *)
+(* cell (r, c) holds Stride * r + c, with a stride wider than the longest row  *)
+(* (10 for the exhaustive small shapes, 100000 for the long ones of Part 6;    *)
+(* props/c05.py `_stride` is the same rule; values stay far below 2^31)        *)
+Stride(ls) == IF \A k \in 1..Len(ls) : ls[k] <= 10 THEN 10 ELSE 100000
+Cell(st, r, c) == st * r + c
+RowsOf(ls) == LET st == Stride(ls) IN [k \in 1..Len(ls) |-> [j \in 1..ls[k] |-> Cell(st, k - 1, j - 1)]]
 
 (* ========================================================================== *)
 (* Part 1: index grammar                                                      *)
@@ -104,6 +119,7 @@ GetPair(rows, r, c) ==
        IN IF \E k \in 1..Len(sel) : cs[k] = Bad THEN Err
           ELSE CASE r.t = "I" /\ c.t = "I" -> Scalar(vs[1][1])
                  [] r.t = "I" /\ c.t = "S" -> Flat(vs[1])
+                 [] r.t = "I" /\ c.t = "L" -> Flat(vs[1])              \* rows[i][[c1, c2, ..]]
                  [] r.t = "S" /\ c.t = "I" -> Col([k \in 1..Len(sel) |-> vs[k][1]])
                  [] r.t = "L" /\ c.t = "I" -> Flat([k \in 1..Len(sel) |-> vs[k][1]])
                  [] OTHER                  -> Rows(vs)      \* (S|L, S) and (S, L)
